@@ -145,7 +145,8 @@ def resolveRes (st : Static) (defs : Defs) (ctx : RCtx) (ref : Nat) (e : Expr) :
       let prev := defs.res.getD ref 0
       let nv := n * unit
       let defs' := { defs with res := defs.res.set ref nv }
-      if nv != prev then .ok (defs', false, if ctx.last then ["reserve size did not converge"] else [])
+      if nv ≥ USIZE_MAX1 then .error outOfRange
+      else if nv != prev then .ok (defs', false, if ctx.last then ["reserve size did not converge"] else [])
       else .ok (defs', true, [])
 
 /-- `resolve_align` -/
